@@ -156,6 +156,26 @@ class Hist(object):
             else:
                 for i in self.A:
                     per[i] = {"fullDumpFile": os.path.join(self.filedir, "%s.dump" % i)}
+        self.pend = {}
+        if p.get("dump_checker"):
+            # the public conf option `serializeChecker` lets the application say how long its dump is in the making:
+            # while it answers SERIALIZING the node has no snapshot to hand out and sends `serialized: None`.
+            # (Under the virtual clock a dump is otherwise always complete on the next tick.)  Armed by event `pend`.
+            simmod.load_pysyncobj(repo)
+            from pysyncobj.config import SERIALIZER_STATE as ST
+            for i in self.A:
+                def checker(i=i, h=self):
+                    st = h.pend.get(i)
+                    if st is None:
+                        return ST.NOT_SERIALIZING
+                    st["calls"] += 1
+                    if st["calls"] == 1:
+                        return ST.NOT_SERIALIZING            # the tick that starts the forced dump
+                    if st["calls"] <= 1 + st["n"]:
+                        return ST.SERIALIZING
+                    del h.pend[i]
+                    return ST.SUCCESS
+                per.setdefault(i, {})["serializeChecker"] = checker
         self.sim = simmod.Sim(repo, self.V, observers=self.O, conf=conf, seed=p["seed"], per_node_conf=per,
                               journal_dir=jdir, dump=bool(jdir))
         self.rng = _random.Random("c05/%r" % (p["seed"],))
@@ -274,6 +294,9 @@ class Hist(object):
             s.submit(e[1], e[2])
         elif k == "compact":
             s.compact(e[1])
+        elif k == "pend":
+            if self.p.get("dump_checker"):
+                self.pend[e[1]] = {"n": e[2], "calls": 0}
         elif k == "hold":
             self.hold.add((e[1], e[2]))
         elif k == "release":
@@ -758,6 +781,14 @@ def d_slow_snapshot(h, var):
         h.run(3, DT, rest)
     h.submit(L, "tiny", var.get("after", 2))
     h.run(3, DT, rest)
+    if var.get("pending") and h.p.get("dump_checker"):
+        # the leader starts another dump right before the lagging node returns and takes `pending` ticks to finish it:
+        # all that time the node gets nothing but `serialized: None` (many per tick: the send loop spins)
+        h.submit(L, "tiny", 2)
+        h.run(2, DT, rest)
+        h.ev("pend", L, var["pending"])
+        h.ev("compact", L)
+        h.run(1, DT, rest)
 
 
 def d_snapshot_then_leader_down(h, var):
@@ -1440,6 +1471,18 @@ def scenario(repo, p, workdir=None):
             elif m.get("reset"):
                 runs[a] = runs.get(a, 0) + 1
                 best = max(best, runs[a])
+    nones, votes_in_pending = {}, 0
+    if p.get("dump_checker"):
+        for (a, b, m) in s.sent[n_sent0:]:
+            if m.get("type") == "append_entries" and "serialized" in m and m["serialized"] is None:
+                nones[b] = nones.get(b, 0) + 1
+            elif m.get("type") == "request_vote" and nones.get(a) and a == h.notes.get("lagging") and \
+                    not any(x.get("done") for x in [xfer.get(a) or {}]):
+                votes_in_pending += 1
+    cov["none_heartbeats_after_heal"] = max(list(nones.values()) + [0])
+    cov["pending_steps"] = (p.get("var") or {}).get("pending") if p.get("dump_checker") else None
+    cov["request_votes_of_lagging_node_after_heal"] = sum(1 for (a, b, m) in s.sent[n_sent0:]
+                                                          if m.get("type") == "request_vote" and a == h.notes.get("lagging"))
     longest = max([x["longest"] for x in xfer.values()] + [0]) * DT
     cov["link_rate"] = link_rate
     cov["snapshot_transfer_s"] = longest
@@ -1687,6 +1730,13 @@ def directed_params(rng):
                             "seed": rng.randrange(10 ** 6), "post": ["leader", "follower"][k % 2], "early": "lagging",
                             "post_k": rng.randrange(4), "heal_all": k % 2 == 0, "dumpfile": dumpfile, "down": "none",
                             "link_rate": 1 if conf["logCompactionBatchSize"] >= 64 else 2})
+    for k, (nv, dumpfile) in enumerate(((3, False), (3, True), (5, False))):
+        conf = draw_conf(rng, "slow_snapshot")
+        out.append({"kind": "slow_snapshot", "nv": nv, "no": k % 2, "conf": conf,
+                    "var": {"who": "voter", "which": k, "mode": modes[k % 4], "m": 24, "rnd_len": 64, "after": 1,
+                            "pending": [40, 64, 48][k]},
+                    "seed": rng.randrange(10 ** 6), "post": "leader", "early": "lagging", "post_k": k, "heal_all": True,
+                    "dumpfile": dumpfile, "down": "none", "link_rate": [None, 2, 4][k], "dump_checker": True})
     # the node that installed a snapshot must win the next election in a bare majority
     k = 0
     for nv in (3, 5):
@@ -2032,7 +2082,8 @@ def _run(ctx, workdir):
            "violating_histories": {}, "early_command_outcome": {},
            "healed_with_minority_down": {"histories": 0, "by_kind": {}}, "connected_log_shapes_at_heal": {},
            "old_long_vs_new_short": {}, "restarts": {}, "walkback_longer_than_fallback": {}, "max_walkback_rounds": 0,
-           "even_split": {}, "bounded_bandwidth": {}, "dynamic_membership_option": {}}
+           "even_split": {}, "bounded_bandwidth": {}, "dynamic_membership_option": {},
+           "pending_dump": {}}
     distinct = set()
     viols, sigs = [], set()
     errors = []
@@ -2078,6 +2129,14 @@ def _run(ctx, workdir):
                     _inc(bw, "slow_snapshot_long_transfer_%s_%s" % ((p.get("var") or {}).get("who"),
                                                                      "file" if p.get("dumpfile") else "memory"))
             bw["max_snapshot_transfer_s"] = max(bw.get("max_snapshot_transfer_s", 0.0), c["snapshot_transfer_s"])
+        if c.get("pending_steps") and c["none_heartbeats_after_heal"]:
+            pd = cov["pending_dump"]
+            _inc(pd, "histories")
+            if c["pending_steps"] * DT > 1.5:
+                _inc(pd, "pending_longer_than_raftMaxTimeout")
+            if c["request_votes_of_lagging_node_after_heal"]:
+                _inc(pd, "lagging_node_started_elections_after_heal")      # (observation only)
+            pd["max_none_heartbeats"] = max(pd.get("max_none_heartbeats", 0), c["none_heartbeats_after_heal"])
         if c["dynamic_membership"]:
             dm = cov["dynamic_membership_option"]
             _inc(dm, "histories")
@@ -2215,6 +2274,9 @@ def _run(ctx, workdir):
             floors.append("slow_snapshot variant %s never had a long transfer" % v_)
     if bw.get("histories", 0) < ctx.scale(40, 1000):
         floors.append("histories with bounded bandwidth: %d" % bw.get("histories", 0))
+    if cov["pending_dump"].get("pending_longer_than_raftMaxTimeout", 0) < 2:
+        floors.append("pending_dump histories with `serialized: None` for longer than raftMaxTimeout: %d"
+                      % cov["pending_dump"].get("pending_longer_than_raftMaxTimeout", 0))
     dm = cov["dynamic_membership_option"]
     if dm.get("histories", 0) < ctx.scale(80, 2000) or dm.get("snapshot_node_left_without_its_leader", 0) < 4:
         floors.append("dynamicMembershipChange: %d histories, snapshot node left without its leader %d"
